@@ -8,6 +8,7 @@ EXTRA_THEOREM_FILES = ["Props/C12_src.v"]     # source tie: translated source = 
 EXTRA_THEOREM_FILES += ["Props/C12_src_state.v"]     # source tie of __getstate__ / __setstate__ and IPRange.__init__
 EXTRA_THEOREM_FILES.append("Props/C12_src_cmp.v")     # (SRCE) source tie of the rich comparisons, __hash__, IPRange.sort_key
 EXTRA_THEOREM_FILES.append("Props/C12_code.v")     # (CODA) code-level theorems: the property about the regenerated definitions
+EXTRA_THEOREM_FILES.append("Props/C12_src_g.v")     # SRCG: core.num_bits, both definitions
 RULE = ("objects: per arena (8 arenas of harness/gens.py + one cross-family arena with the same integers in IPv4 and "
         "IPv6) a pool built from the arena block, a nested chain of blocks around a random address and other blocks; "
         "each block gives IPNetwork with/without host bits, IPAddress first/last/first-1/last+1, IPRange equal to the "
